@@ -378,6 +378,11 @@ def main():
         shutil.rmtree(workdir, ignore_errors=True)
         sys.exit(1 if new_viol else 0)
 
+    required = [x for x in info.pop("require", "").split("||") if x]
+    if not new_viol and not replay:
+        for key in required:
+            if counters.get(key, 0) == 0:
+                incon.append("required observation never made: " + key)
     rule = info.pop("rule", "see DESIGN.md section 4 for this property")
     assumptions = [a for a in info.pop("assumptions", "").split(" || ") if a]
     exhaustive = info.pop("exhaustive", "") == "true"
